@@ -87,6 +87,22 @@ def cond_paths(expr: ast.expr) -> List[Tuple[list, bool]]:
 
 
 def enumerate_paths(stmts: List[ast.stmt], in_loop: bool = False) -> List[Path]:
+    """all paths through `stmts`, minus those a path-sensitive look at None /
+    constant / tuple temporaries shows to be infeasible (see pathsimp)"""
+    from .pathsimp import simplify_events
+
+    out = []
+    for p in _enumerate_raw(stmts):
+        ev = simplify_events(p.events)
+        if ev is None:
+            continue
+        if ev is not p.events:
+            p = Path(ev, p.exit, p.exit_node)
+        out.append(p)
+    return out
+
+
+def _enumerate_raw(stmts: List[ast.stmt]) -> List[Path]:
     paths = [Path([])]
     for s in stmts:
         live = [p for p in paths if p.exit == "fall"]
@@ -227,7 +243,7 @@ def guards_of(paths: List[Path], stmt: ast.stmt):
     for p in paths:
         idx = None
         for i, ev in enumerate(p.events):
-            if ev[0] == "stmt" and ev[1] is stmt:
+            if ev[0] == "stmt" and (ev[1] is stmt or getattr(ev[1], "_orig", None) is stmt):
                 idx = i
                 break
         if idx is None:
